@@ -132,14 +132,24 @@ def pre_case(case, env):
     for fi in files:
         with open(os.path.join(side, fi["name"]), "wb") as f:
             f.write(fi["emitted"])
+    # the same selection (*.pp files) spelled in the documented ways: a
+    # positive glob; exclusions only ("precede a glob with a ! to exclude
+    # it": whatever is not excluded goes to the command); and mixtures where
+    # the last matching glob decides
+    gstyle = rng.below(4)
+    globs = [["--pre-glob", "*.pp"],
+             ["--pre-glob", "!*.txt", "--pre-glob", "!*.cfg"],
+             ["--pre-glob", "*", "--pre-glob", "!*.txt", "--pre-glob", "!*.cfg"],
+             ["--pre-glob", "!f*", "--pre-glob", "*.pp"]][gstyle]
+    env.count("pre_glob_style_%d" % gstyle)
     modes = [("none", []), ("max-count", ["-m1"]), ("quiet", ["-q"]), ("files-with-matches", ["-l"])]
     if tier == "quick":
         modes = [modes[0]] + [rng.pick(modes[1:])]
     for mname, margs in modes:
         for threads in (["-j1", "-j4"] if tier == "thorough" else [rng.pick(["-j1", "-j4"])]):
             rep["evaluations"] += 1
-            argv = ["--no-config", "--color", "never", "--no-heading", "-H", "-n", threads, "--pre", script,
-                    "--pre-glob", "*.pp"] + margs + ["-e", pattern, "t"]
+            argv = ["--no-config", "--color", "never", "--no-heading", "-H", "-n", threads, "--pre", script] + globs + \
+                margs + ["-e", pattern, "t"]
             r = common.run_rg(argv, env.tmp, env.home, timeout=180)
             if r is None:
                 env.viol("C18:%s:did-not-finish" % mname,
